@@ -405,6 +405,14 @@ def main(chk):
                                      'step fails' % (inst_.cls.node.name, ['self.%s()' % g_ for g_ in gap], have)), (describe(cfg), inst_.node, inst_.rel))
                 for inst, bad in res['ctor']:
                     ctor.setdefault((inst.cls.node.name, bad), (describe(cfg), inst.node, inst.rel))
+                # an equation object is listed once: the generated evaluator declares one member per listed object, named by class and running number, so the same object in two
+                # groups is declared twice under one name and the extension does not compile
+                seen_ids = {}
+                for inst in res['equations']:
+                    if id(inst) in seen_ids:
+                        ctor.setdefault((inst.cls.node.name, 'the same %s object is listed twice in the equations of the scheme (a group appended again instead of a new one): the generated '
+                                         'evaluator declares it twice under one name and cannot be built' % inst.cls.node.name), (describe(cfg), inst.node, inst.rel))
+                    seen_ids[id(inst)] = True
                 for inst in res['equations']:
                     dest = inst.kwargs.get('dest', inst.args[0] if inst.args else None)
                     srcs = inst.kwargs.get('sources', inst.args[1] if len(inst.args) > 1 else None)
